@@ -255,6 +255,35 @@ theorem serTrig_noloop (fb : Bool) : ∀ (cs : List (Bool × List (Str × Bool))
       exact serDoc_noloop fb qs _ _ _ _ he
     · exact serTrig_noloop fb r _ _ _
 
+theorem strictSeq_noloop : ∀ (us : List Str) (st : Store) (m : Mgr) (acc : List QN),
+    (strictSeq us st m acc).2.2 ≠ .error .Loop
+  | [], _, _, _ => by simp [strictSeq]
+  | u :: r, st, m, acc => by
+    simp only [strictSeq]
+    split
+    · next e he =>
+      intro h
+      simp only at h
+      injection h with h; subst h
+      exact computeQnameStrict_noloop _ _ u true he
+    · exact strictSeq_noloop r _ _ _
+
+theorem serXml_noloop (preds stmts : List Str) (st : Store) (m : Mgr) :
+    (serXml preds stmts st m).2.2 ≠ .error .Loop := by
+  unfold serXml
+  simp only
+  split
+  · next e he =>
+    intro h; simp only at h; injection h with h; subst h
+    exact strictSeq_noloop preds st m [] he
+  · split
+    · simp
+    · split
+      · next e he =>
+        intro h; simp only at h; injection h with h; subst h
+        exact strictSeq_noloop stmts _ _ [] he
+      · simp
+
 theorem outQN_noloop {r : Except Err QN} (h : r ≠ .error .Loop) : outQN r ≠ .err .Loop := by
   cases r with
   | ok q => obtain ⟨a, b, c⟩ := q; simp [outQN]
@@ -275,6 +304,14 @@ theorem St.step_noloop (s : St) (op : Op) : (s.step op).2 ≠ .err .Loop := by
       intro h; injection h with h; subst h
       cases b <;> simp [BindSet.bad] at he
     · exact Mgr.init_noloop _ b
+  | serxml i preds stmts =>
+    simp only [St.step]
+    split
+    · simp
+    · next e he =>
+      intro h
+      injection h with h; subst h
+      exact serXml_noloop preds stmts _ _ he
   | sertrig fb cs =>
     simp only [St.step]
     split
